@@ -66,8 +66,16 @@ def r02_1(prog, out):
                 continue
             if e.kind == "read" and b.impl_self == tracker:
                 continue
+            if e.kind in ("read", "read_first", "read_last", "len"):
+                continue          # looking is not touching: the pairing invariant is about who mutates the two structures
             root_body = prog.facts.body(b.root) if b.root else b
             owner = b.impl_self or (root_body.impl_self if root_body is not None else None)
+            # code spliced in from a (new) method of the tracker is the tracker's own code
+            org = b.blocks[e.bb].origin
+            ob = (prog.facts.body(org) or getattr(prog.facts, "inlined", {}).get(org)) if org else None
+            if ob is not None:
+                orb = (prog.facts.body(ob.root) or getattr(prog.facts, "inlined", {}).get(ob.root)) if ob.root else ob
+                owner = ob.impl_self or (orb.impl_self if orb is not None else owner)
             if owner != tracker:
                 out.violation("foreign-access:%s" % prog.short(bid), prog.loc(bid, e.bb), "%s accesses OutstandingMessageTracker.%s directly" % (prog.short(bid), e.cells[-1][1]))
     n = 0
@@ -124,8 +132,11 @@ def r02_1(prog, out):
             key = "%s:remove(expirations)" % name
             partners = {x.bb for x in rem_m} | {x.bb for x in ins_e}
             partners.discard(e.bb)
+            start_e = some_arm(bi, e.bb)      # `let Some(k) = set.pop_first() else { break }`: only the Some arm removed anything
             if any(same_iteration_dominator(bi, p, e.bb) for p in {x.bb for x in rem_m}):
                 out.holds(key, bi.loc(e.bb), "follows the removal of its delivery")
+            elif partners and start_e is not None and bi.cfg.escapes(start_e, partners, iteration_exits(bi, e.bb), after=False) is None:
+                out.holds(key, bi.loc(e.bb), "whenever an entry was taken, its delivery is removed too (or an entry is re-inserted)")
             elif partners and bi.cfg.escapes(e.bb, partners, iteration_exits(bi, e.bb)) is None:
                 out.holds(key, bi.loc(e.bb), "every path removes the delivery or re-inserts an expiry entry for it")
             elif any(bi.cfg.dominates(x.bb, e.bb) and deferred_pairing(prog, bi, x, {e.bb}) for x in rem_m):
@@ -280,6 +291,8 @@ def r02_4(prog, out):
         # lookups by ack id: remove(&id) / entry(id) / get_mut(&id) / get(&id) / contains_key(&id)
         from mapstate import presence_switches, LOOKUPS
         seen_lookup = set()
+        if any((b.local_ty(i) or "") == A.ty("PulledMessage") for i in range(1, b.arg_count + 1)):
+            continue      # the method that starts tracking a new delivery (its id is the server's own, never "unknown")
         for e in [x for x in prog.effects(b.id) if not x.chain and x.touches(messages) and x.kind in (L.REMOVE_KINDS | {"handle", "read"})]:
             t = bi.call_at(e.bb)
             if t.k != "call" or t.callee is None or e.bb in seen_lookup:
@@ -447,3 +460,104 @@ def r02_5(prog, out):
                 out.violation(key, bi.loc(bb), "acknowledged ids do not come from the ack-id parser (%s)" % sorted(c.split('::')[-1] for c in s.calls)[:5])
     if n < 3:
         raise CheckBroken("expected 3 callers of the ack sink (unary, streaming, push), found %d" % n)
+
+
+CUTTING = {"chunks", "chunks_exact", "take", "skip", "split_at", "split_off", "drain", "truncate", "step_by", "windows", "filter", "partition",
+           "flat_map", "filter_map", "flatten", "take_while", "skip_while", "map_while", "dedup", "dedup_by_key", "retain", "pop", "swap_remove",
+           "find_map", "find", "last", "first", "nth", "binary_search", "position", "split_first", "split_last", "unzip", "partition_in_place"}
+
+
+@rule("C02", "R02.6", "every id of an acknowledge request reaches the tracker: no id is filtered out or skipped on the way", floor=1)
+def r02_6_ack(prog, out):
+    r02_6(prog, out, "AckId")
+
+
+@rule("C05", "R02.6", "every modification of a modify-deadline request reaches the tracker: none is filtered out or skipped on the way", floor=1)
+def r02_6_modify(prog, out):
+    r02_6(prog, out, "DeadlineModification")
+
+
+def r02_6(prog, out, elem):
+    """`Acknowledge(ids)` retires every listed delivery that is outstanding; which ids are `stale` is the tracker's decision (its
+    map is the only authority, R02.4).  A handler that drops ids before the tracker sees them (a `stale id` fast path, a
+    prefix cut, an early return when some unrelated condition holds) answers Ok for deliveries that stay outstanding and are
+    redelivered.  Rule: in the handler of a request carrying ack ids, the tracker operation (a) receives the request's vector
+    through element-preserving steps only and (b) is executed on every normal path except under the actor's own `deleted`
+    flag (or when the batch is known to be empty)."""
+    from actorlib import roles
+    from props.c11 import flag_regions
+    from props.c12 import error_blocks
+    R = roles(prog)
+    A = prog.anchors
+    sl = Slicer(prog)
+    actor = R.sub_actor
+    tracker = A.ty("OutstandingMessageTracker")
+    messages, expirations, notify = tracker_cells(prog)
+    flag = A.cell("SubscriptionActor", "deleted", optional=True)
+    adt = prog.facts.adt(actor.request)
+    n = 0
+    for v in adt["variants"]:
+        tys = [f["ty"] for f in v["fields"]]
+        if not any(t.startswith("std::vec::Vec<%s" % A.ty(elem)) for t in tys):
+            continue
+        for tid in R.variant_targets(actor, v["name"]):
+            bi = prog.info(tid)
+            b = bi.body
+            ops = []
+            for bb, t in bi.calls(lambda c: c.impl_self == tracker or (c.target or "").startswith(tracker + "::")):
+                cid = prog.qual(b, t.callee.target)
+                if any(e.touches(messages) and e.kind in (L.REMOVE_KINDS | {"handle", "write"}) for e in prog.effects(cid)):
+                    ops.append((bb, t))
+            key = "%s:all-ids" % prog.short(tid)
+            if not ops:
+                # the tracker's maps are updated in this body itself (handler merged with the tracker method): judged by R02.1/R02.4
+                own = [e for e in prog.effects(tid) if e.touches(messages) and e.kind in L.REMOVE_KINDS]
+                if own:
+                    out.undecided(key, prog.loc(tid), "the handler updates the tracker's map itself; per-id coverage not decided here")
+                else:
+                    out.violation(key, prog.loc(tid), "the handler of %s never applies its ids to the outstanding-delivery tracker" % v["name"])
+                n += 1
+                continue
+            for bb, t in ops:
+                n += 1
+                arg = [a for a in t.args[1:]]
+                if not arg:
+                    out.undecided(key, bi.loc(bb), "tracker operation without an id argument")
+                    continue
+                s = sl.of(tid, arg[0])
+                from_req = any(r[0] == "param" and r[1] == tid and r[2] >= 2 for r in s.roots)
+                cut = sorted({c.split("::")[-1] for c in s.calls} & CUTTING)
+                _fa, deleted_blocks = flag_regions(prog, bi, flag)
+                esc = bi.cfg.escapes(0, {bb} | deleted_blocks | error_blocks(bi), after=False)
+                if not from_req:
+                    out.violation(key, bi.loc(bb), "the ids handed to the tracker are not the request's ids")
+                elif cut:
+                    out.violation(key, bi.loc(bb), "the request's ids pass through %s before the tracker sees them: an id that is outstanding can be dropped, "
+                                  "the request is answered Ok and the delivery is redelivered anyway" % cut)
+                elif esc is not None:
+                    from common import skipped_only_when_empty
+                    sk = skipped_only_when_empty(prog, bi, bb, arg[0])
+                    if sk is None and _only_empty_skips(prog, bi, bb, arg[0], deleted_blocks):
+                        out.holds(key, bi.loc(bb), "applied on every path unless the batch is empty or the subscription is deleted")
+                    else:
+                        out.violation(key, bi.loc(esc[-1]), "a path answers the request without handing its ids to the tracker (and not because the subscription is "
+                                      "deleted): outstanding deliveries named in the request stay outstanding")
+                else:
+                    out.holds(key, bi.loc(bb), "the request's id vector reaches %s whole, on every path of a live subscription" % t.callee.path.split("::")[-1])
+    if n == 0:
+        raise CheckBroken("no request variant carrying ack ids has a handler")
+
+
+def _only_empty_skips(prog, bi, call_bb, operand, also_ok):
+    """every normal path from the entry reaches the call, an `is_empty() == true` region of the batch, or `also_ok`"""
+    from mapstate import _bool_switches
+    from props.c12 import error_blocks
+    key = bi.trace(operand).key()
+    empty = set()
+    for bb, t in bi.calls(lambda c: c.path.endswith("::is_empty")):
+        if not t.args or t.dest is None or not t.dest.is_local() or bi.trace(t.args[0]).key() != key:
+            continue
+        for sw, tr, fa in _bool_switches(bi, t.dest.local):
+            if tr is not None:
+                empty |= bi.cfg.edge_dominated(sw, tr)
+    return bool(empty) and bi.cfg.escapes(0, {call_bb} | empty | also_ok | error_blocks(bi), after=False) is None
